@@ -101,6 +101,8 @@ def run(chk):
 
     from lib import jecxzrule
     jecxzrule.run(chk)
+    from lib import labelbase
+    labelbase.run(chk)
     return chk.finish(
         level="other", exhaustive=False,
         explanation=("Table, database and dispatch rules over the x86 backend of /repo's current source: every entry of the encoder's "
